@@ -74,7 +74,7 @@ def oracle_of(out):
     return f["oracle"] if f else None
 
 
-def case_hash(case, keys=("cfg", "ops", "crash", "post_ops", "faults", "threads", "sched")):
+def case_hash(case, keys=("cfg", "ops", "crash", "post_ops", "faults", "threads", "sched", "batches", "setup", "level")):
     d = {k: case.get(k) for k in keys if k in case}
     return hashlib.sha1(json.dumps(d, sort_keys=True).encode()).hexdigest()[:16]
 
